@@ -1,0 +1,23 @@
+//go:build verif
+
+package client
+
+import "sync/atomic"
+
+// Pause points for the verification harness (build tag verif). A point does
+// nothing unless a hook is installed; a hook may block to order goroutines.
+
+type verifHookFunc func(point string, args ...string)
+
+var verifHook atomic.Value
+
+// SetVerifHook installs (or, with nil, removes) the pause point hook.
+func SetVerifHook(f func(point string, args ...string)) {
+	verifHook.Store(verifHookFunc(f))
+}
+
+func verifPoint(point string, args ...string) {
+	if f, ok := verifHook.Load().(verifHookFunc); ok && f != nil {
+		f(point, args...)
+	}
+}
